@@ -880,7 +880,7 @@ def rblock(b, ind, out):
                 out.append(pad + "    }")
             out.append(pad + "}")
         elif k == "append":
-            out.append(pad + "append(&'%s, %s);" % (rexpr(s["lv"]), rexpr(s["e"])))
+            out.append(pad + "append(%s%s, %s);" % ("" if s.get("viaref") else "&'", rexpr(s["lv"]), rexpr(s["e"])))
         elif k == "break":
             out.append(pad + "break;")
         elif k == "continue":
